@@ -13,7 +13,10 @@ RULE = (
     "subcircuit: probabilities >= 0 and |sum-1| <= 1e-9; each *_by_str view has exactly 2^n keys, in integer order, "
     "key k = n characters with character i = bit i of k (qubit 0 leftmost, least significant), values equal to "
     "*_by_int[k]; every Readout has as_str of length n with as_str[i] == bit i of as_int; results for string and "
-    "int outputs are identical; relative_frequency_by_int[k] = number of recorded readouts with as_int == k.  "
+    "int outputs are identical; relative_frequency_by_int[k] = number of recorded readouts with as_int == k; the "
+    "same through the job interface (backend(circuit) -> job): on job.subcircuits before anything ran, after "
+    "job.execute() and after a second job.execute(); in half of the reads the string-keyed views are asked for "
+    "before the integer-indexed ones.  "
     "all-outcomes: for every register size n <= 10 (thorough <= 12) ALL 2^n outcomes are fed through "
     "parse_jaqal_output_list as ints and as strings and (n <= 6) through an emulated basis-state preparation (X on "
     "the set bits) - exhaustive over outcomes.  renormalise: programs whose gates are scaled by 1 + e, "
@@ -32,19 +35,26 @@ def bits(k, n):
     return "".join(str((k >> i) & 1) for i in range(n))
 
 
-def _check_views(res, n, ctx, who):
+def _check_views(res, n, ctx, who, str_first=False):
     for sc in res.subcircuits:
         views = []
+        pre = {}
+        if str_first:
+            # the string-keyed views are read BEFORE the integer-indexed ones: neither may depend
+            # on the other having been asked for
+            for name in ("simulated_probability", "relative_frequency", "probability"):
+                if hasattr(sc, name + "_by_str"):
+                    pre[name] = getattr(sc, name + "_by_str")
         if hasattr(sc, "simulated_probability_by_int"):
             p = np.asarray(sc.simulated_probability_by_int, dtype=float)
             if p.shape != (2**n,):
                 raise Violation("distribution-shape", f"[{who}] {p.shape}\n{ctx}", where=who)
             if (p < 0).any() or abs(p.sum() - 1) > 1e-9:
                 raise Violation("not-normalised", f"[{who}] min {p.min()} sum {p.sum()}\n{ctx}", where=who)
-            views.append(("simulated_probability", p, sc.simulated_probability_by_str))
+            views.append(("simulated_probability", p, pre["simulated_probability"] if "simulated_probability" in pre else sc.simulated_probability_by_str))
         if hasattr(sc, "relative_frequency_by_int"):
-            views.append(("relative_frequency", np.asarray(sc.relative_frequency_by_int, dtype=float), sc.relative_frequency_by_str))
-        views.append(("probability", np.asarray(sc.probability_by_int, dtype=float), sc.probability_by_str))
+            views.append(("relative_frequency", np.asarray(sc.relative_frequency_by_int, dtype=float), pre["relative_frequency"] if "relative_frequency" in pre else sc.relative_frequency_by_str))
+        views.append(("probability", np.asarray(sc.probability_by_int, dtype=float), pre["probability"] if "probability" in pre else sc.probability_by_str))
         # the deprecated name is documented as the simulated probabilities where there are some,
         # else the relative frequencies
         twin = sc.simulated_probability_by_int if hasattr(sc, "simulated_probability_by_int") else sc.relative_frequency_by_int
@@ -96,6 +106,22 @@ def views(case):
     if st_ == "err":
         raise Skip()
     _check_views(res, n, ctx, "emulator")
+    # The job interface (backend(circuit) -> job, job.execute() -> result; what run_jaqal_circuit
+    # does inside): the views hold at every moment - on the job's subcircuits before anything ran
+    # (all counts zero, string views read first), after a run, and after a second run of the job
+    import types
+    from jaqalpaq.core.algorithm import expand_macros, fill_in_let, expand_subcircuits
+    from jaqalpaq.emulator.unitary import UnitarySerializedEmulator
+
+    st_, job = guard(lambda: UnitarySerializedEmulator()(expand_macros(fill_in_let(expand_subcircuits(c)))), what="backend(circuit)")
+    if st_ == "ok":
+        str_first = case["np_seed"] % 2 == 0
+        _check_views(types.SimpleNamespace(subcircuits=job.subcircuits, readouts=[]), n, ctx, "job-before-execute", str_first=str_first)
+        for run in ("job-first-run", "job-second-run"):
+            st_, rj = guard(job.execute, what="job.execute()")
+            if st_ == "err":
+                raise Violation("job-execute-raised", f"[{run}] {rj}\n{ctx}", where=run)
+            _check_views(rj, n, ctx, run, str_first=not str_first)
     # readouts are values of their own: they stay usable after the result object is gone
     import gc
 
@@ -116,8 +142,8 @@ def views(case):
     st2, rs = guard(parse_jaqal_output_list, c, [bits(k, n) for k in outs], what="parse_jaqal_output_list(strings)")
     if st_ == "err" or st2 == "err":
         raise Skip()
-    _check_views(ri, n, ctx, "output-ints")
-    _check_views(rs, n, ctx, "output-strings")
+    _check_views(ri, n, ctx, "output-ints", str_first=case["outs_seed"] % 2 == 0)
+    _check_views(rs, n, ctx, "output-strings", str_first=case["outs_seed"] % 2 == 1)
     # integer outcomes arrive in many integer TYPES (numpy scalars and arrays - the emulator's own
     # as_int values are numpy ints -, tuples): all of them are ints
     forms = {
